@@ -498,6 +498,10 @@ class Builder:
         else:
             tr = self.transform_ref(min(pitches), rot_classes=None) \
                 if d(st.integers(0, 2)) == 0 else None
+        if not homogeneous and size > 1:
+            # a transformation written after a FILL array belongs to its last
+            # entry only (MCNP): the form is not generated for arrays
+            tr = None
         if tr is not None:
             spec = tr['inline'] if 'inline' in tr else \
                 [t for t in self.deck['transforms']
@@ -947,7 +951,10 @@ def _finish_hex(b, u, force, expr, three_d, a1, a2, a3, w, centre):
     tr = None
     if force.get('tr') or d(st.integers(0, 3)) == 0:
         tr = b.transform_ref(size_scale, allow_none=False)
-        b.labels.add('hex+filltr')
+        if not homogeneous and size > 1:
+            tr = None       # see lattice_universe
+        else:
+            b.labels.add('hex+filltr')
     if homogeneous:
         fill = {'u': subs[0], 'ranges': [list(r) for r in ranges],
                 'univs': None, 'tr': tr}
